@@ -96,7 +96,7 @@ def make_db(kind, fn, rec, create):
         who = Required(str)
         v = Required(int)
     if kind == 'sqlite':
-        db.bind('sqlite', fn, create_db=create, factory=rec.factory())
+        db.bind('sqlite', fn, create_db=create, factory=rec.factory(), timeout=1.0)
     else:
         from pony.orm.dbproviders.sqlite import SQLiteProvider
         from pony.orm.dbapiprovider import Pool
@@ -109,7 +109,7 @@ def make_db(kind, fn, rec, create):
             def get_pool(provider, is_shared_memory_db, filename, create_db=False, **kwargs):
                 assert not is_shared_memory_db
                 return Pool(Module, filename, **kwargs)
-        db.bind(GenericPoolProvider, fn)
+        db.bind(GenericPoolProvider, fn, timeout=1.0)
         assert type(db.provider.pool) is Pool
     db.generate_mapping(create_tables=create)
     return db, T
